@@ -221,10 +221,15 @@ def run_chunked(E, case):
             f = "count" if case["func"] == "size" else case["func"]
             return gb._apply_gb_func_across_chunked_group_keys("sum" if f == "mean" else f, vals, mask)
         return run_paths(body)
-    gb1 = make_gb(E, G, chunks=st.chunk_arrays(), pointers=st.pointer_arrays())
-    p1 = call(gb1)
-    gb2 = make_gb(E, G, codes=A(st.global_codes(), "int64").tag("state:_group_ikey"))
-    p2 = call(gb2)
+    try:
+        gb1 = make_gb(E, G, chunks=st.chunk_arrays(), pointers=st.pointer_arrays())
+        p1 = call(gb1)
+        gb2 = make_gb(E, G, codes=A(st.global_codes(), "int64").tag("state:_group_ikey"))
+        p2 = call(gb2)
+    except (Unsupported, OutsideModel):
+        raise
+    except Exception as e:      # noqa: BLE001
+        return common.raises_result(E, inp, PROP, f"chunked_keys:{case['func']}:mask={case['mask']['kind']}", case, e, t0)
     bads = []
     for pc1, o1, rt1 in p1:
         for pc2, o2, rt2 in p2:
